@@ -1,5 +1,417 @@
 package props
 
-import "xv/run"
+import (
+	"bytes"
+	"encoding/json"
+	"fmt"
+	"os"
+	"os/exec"
+	"path/filepath"
+	"strconv"
+	"strings"
+	"sync"
 
-func c14CLI(c *run.Check) {}
+	"xv/instr"
+	"xv/run"
+	"xv/sched"
+)
+
+// ---- C14 (b): the command line tool under all worker schedules -----------------
+//
+// The real main() of xsel/xsel.go is run under the cooperative scheduler: its
+// source is rewritten on the fly (go statements, channel operations,
+// sync.WaitGroup/Mutex and every write to stdout/stderr become scheduling
+// points) and built with `go build -overlay`, nothing is committed to /repo.
+// One process per execution (the tool keeps its state in package variables);
+// the parent enumerates schedule prefixes depth-first with a preemption bound.
+
+type c14cliScenario struct {
+	Name  string            `json:"name"`
+	Args  []string          `json:"args"` // flags, then -x expr, then inputs (relative to the scenario directory)
+	Files map[string]string `json:"files"`
+	Stdin string            `json:"stdin,omitempty"`
+}
+
+var c14cliFiles = map[string]string{
+	"g2.xml":  "<doc><a>alpha</a><a>beta</a><b><a>gamma</a></b></doc>",
+	"d.json":  `{"a": [1, 2.5, "x"], "b": {"a": true}}`,
+	"p.html":  "<!doctype html><html><body><a href=\"u\">link</a><p>para</p></body></html>",
+	"bad.xml": "<r><a></r>",
+	"g1.xml":  "<r x=\"1\"><a>one\ntwo</a><a/></r>",
+}
+
+var c14cliScenarios = []c14cliScenario{
+	{Name: "three files, two workers", Args: []string{"-c", "2", "-a", "-x", "//a", "g2.xml", "d.json", "bad.xml"}},
+	{Name: "four files, three workers", Args: []string{"-c", "3", "-x", "//a", "g2.xml", "p.html", "g1.xml", "d.json"}},
+	{Name: "stdin among files", Args: []string{"-c", "2", "-t", "xml", "-a", "-x", "//a", "g2.xml", "-", "g1.xml"}, Stdin: "<r><a>from stdin</a></r>"},
+	{Name: "xml records, two workers", Args: []string{"-c", "2", "-m", "-x", "//a", "g1.xml", "g2.xml", "bad.xml"}},
+	{Name: "more workers than files", Args: []string{"-c", "4", "-n", "-a", "-x", "//a | //b", "g2.xml", "g1.xml"}},
+	{Name: "directory walk", Args: []string{"-c", "2", "-r", "-x", "count(//a)", "sub", "g2.xml"}},
+}
+
+type vrtReport struct {
+	Points []sched.Point `json:"points"`
+	Writes []struct {
+		Thread    int    `json:"thread"`
+		Stream    string `json:"stream"`
+		Text      string `json:"text"`
+		AfterMain bool   `json:"afterMain"`
+	} `json:"writes"`
+	Deadlock    bool     `json:"deadlock"`
+	Diverged    string   `json:"diverged"`
+	Panic       string   `json:"panic"`
+	Unsupported []string `json:"unsupported"`
+	Truncated   bool     `json:"truncated"`
+}
+
+type c14cliReplay struct {
+	Kind     string         `json:"kind"`
+	Scenario c14cliScenario `json:"scenario"`
+	Schedule []int          `json:"schedule"`
+	Detail   string         `json:"detail"`
+	Stdout   string         `json:"stdout"`
+}
+
+// c14cliBuild rewrites and builds the instrumented tool.
+func c14cliBuild(dir string) (string, []string, error) {
+	harness := filepath.Join(run.VerifDir, "harness")
+	ov, notes, err := instr.BuildCLIOverlay("/repo", harness, dir)
+	if err != nil {
+		return "", nil, err
+	}
+	bin := filepath.Join(dir, "xsel-mc")
+	cmd := exec.Command("go", "build", "-tags", "verif", "-overlay", ov, "-o", bin, "github.com/ChrisTrenkamp/xsel/xsel")
+	cmd.Dir = harness
+	if out, err := cmd.CombinedOutput(); err != nil {
+		return "", notes, fmt.Errorf("building the instrumented tool: %v\n%s", err, out)
+	}
+	return bin, notes, nil
+}
+
+func c14cliPrepare(base string, sc c14cliScenario, i int) string {
+	dir := filepath.Join(base, fmt.Sprint("sc", i))
+	os.MkdirAll(filepath.Join(dir, "sub", "deep"), 0o755)
+	for n, content := range c14cliFiles {
+		os.WriteFile(filepath.Join(dir, n), []byte(content), 0o644)
+	}
+	os.WriteFile(filepath.Join(dir, "sub", "g1.xml"), []byte(c14cliFiles["g1.xml"]), 0o644)
+	os.WriteFile(filepath.Join(dir, "sub", "deep", "d.json"), []byte(c14cliFiles["d.json"]), 0o644)
+	os.WriteFile(filepath.Join(dir, "sub", "deep", "bad.xml"), []byte(c14cliFiles["bad.xml"]), 0o644)
+	return dir
+}
+
+// c14cliExpected derives the per-file blocks from the library API (the C20 oracle).
+func c14cliExpected(dir string, sc c14cliScenario) (blocks []string, diags []string, err error) {
+	var f c20Flags
+	expr := ""
+	var inputs []string
+	for i := 0; i < len(sc.Args); i++ {
+		switch a := sc.Args[i]; a {
+		case "-a":
+			f.A = true
+		case "-m":
+			f.M = true
+		case "-n":
+			f.N = true
+		case "-r":
+			f.R = true
+		case "-t":
+			i++
+			f.T = sc.Args[i]
+		case "-c":
+			i++
+		case "-x":
+			i++
+			expr = sc.Args[i]
+		default:
+			inputs = append(inputs, a)
+		}
+	}
+	for _, in := range inputs {
+		if in == "-" {
+			b := c20Expected("stdin."+f.T, "-", []byte(sc.Stdin), f, expr)
+			if b.diag {
+				diags = append(diags, " -")
+			} else {
+				blocks = append(blocks, c14cliBlockText(b, f)...)
+			}
+			continue
+		}
+		p := filepath.Join(dir, in)
+		st, serr := os.Stat(p)
+		if serr != nil {
+			diags = append(diags, in)
+			continue
+		}
+		var files []string
+		if st.IsDir() {
+			if !f.R {
+				diags = append(diags, in)
+				continue
+			}
+			filepath.WalkDir(p, func(path string, d os.DirEntry, e error) error {
+				if e == nil && !d.IsDir() {
+					rel, _ := filepath.Rel(dir, path)
+					files = append(files, rel)
+				}
+				return nil
+			})
+		} else {
+			files = []string{in}
+		}
+		for _, rel := range files {
+			data, _ := os.ReadFile(filepath.Join(dir, rel))
+			b := c20Expected(rel, rel, data, f, expr)
+			if b.diag {
+				diags = append(diags, rel)
+			} else {
+				blocks = append(blocks, c14cliBlockText(b, f)...)
+			}
+		}
+	}
+	return blocks, diags, nil
+}
+
+// c14cliBlockText: with -m the record text comes from the tool itself (its
+// fidelity is C20's subject); here a block is then identified by prefix and
+// record count only, see c14cliJudge.
+func c14cliBlockText(b c20Block, f c20Flags) []string {
+	if len(b.mNodes) > 0 {
+		return []string{fmt.Sprintf("\x00M%d\x00%s", len(b.mNodes), b.prefix)}
+	}
+	if len(b.records) == 0 {
+		return nil
+	}
+	return []string{strings.Join(b.records, "")}
+}
+
+// c14cliJudge checks one execution record against the expected blocks.
+func c14cliJudge(rep *vrtReport, blocks, diags []string, serialOut map[string]string) (string, string) {
+	if rep.Panic != "" {
+		return "panic: " + rep.Panic, ""
+	}
+	if rep.Diverged != "" {
+		return "HARNESS: schedule prefix diverged: " + rep.Diverged, ""
+	}
+	if rep.Deadlock {
+		return "deadlock: threads are blocked forever (no enabled thread while some have not finished)", ""
+	}
+	var out, errOut strings.Builder
+	for _, w := range rep.Writes {
+		if w.AfterMain {
+			return fmt.Sprintf("thread %d wrote %q to %s after main returned (a real process would have exited: the output is lost)", w.Thread, w.Text, w.Stream), ""
+		}
+		if w.Stream == "stdout" {
+			out.WriteString(w.Text)
+		} else {
+			errOut.WriteString(w.Text)
+		}
+	}
+	// -m blocks: substitute the serial run's text for the block (same bytes expected)
+	var want []string
+	for _, b := range blocks {
+		if strings.HasPrefix(b, "\x00M") {
+			want = append(want, serialOut[b])
+		} else {
+			want = append(want, b)
+		}
+	}
+	if !c20MatchBlocks(out.String(), want) {
+		return fmt.Sprintf("stdout is not a concatenation of exactly the per-file blocks of the serial run, each contiguous and intact: got %q, blocks %q", out.String(), want), out.String()
+	}
+	for _, d := range diags {
+		if !strings.Contains(errOut.String(), d) {
+			return fmt.Sprintf("no diagnostic naming %q on stderr (stderr: %q)", d, errOut.String()), out.String()
+		}
+	}
+	return "", out.String()
+}
+
+func c14cliRun(bin, dir string, sc c14cliScenario, prefix []int, outFile string) (*vrtReport, error) {
+	parts := make([]string, len(prefix))
+	for i, p := range prefix {
+		parts[i] = strconv.Itoa(p)
+	}
+	cmd := exec.Command(bin, sc.Args...)
+	cmd.Dir = dir
+	cmd.Env = append(os.Environ(), "XV_SCHED_PREFIX="+strings.Join(parts, ","), "XV_SCHED_OUT="+outFile)
+	cmd.Stdin = strings.NewReader(sc.Stdin)
+	var se bytes.Buffer
+	cmd.Stderr = &se
+	if err := cmd.Run(); err != nil {
+		return nil, fmt.Errorf("instrumented tool failed: %v: %s", err, se.String())
+	}
+	b, err := os.ReadFile(outFile)
+	if err != nil {
+		return nil, err
+	}
+	var rep vrtReport
+	if err := json.Unmarshal(b, &rep); err != nil {
+		return nil, err
+	}
+	return &rep, nil
+}
+
+func c14CLI(c *run.Check) {
+	base, err := os.MkdirTemp("", "xv-c14cli-")
+	if err != nil {
+		panic(err)
+	}
+	defer os.RemoveAll(base)
+	bin, notes, err := c14cliBuild(base)
+	if err != nil {
+		c.Violation(map[string]string{"build": err.Error()}, "the instrumented command line tool does not build: "+err.Error())
+		return
+	}
+	if len(notes) > 0 {
+		c.Set("cli_unmodelled_constructs", notes)
+		c.Exhaustive = false
+	}
+	bound := 2
+	if !c.Quick() {
+		bound = 3
+	}
+	var mu sync.Mutex
+	total := 0
+	run.ParallelW(len(c14cliScenarios), func(w, i int) {
+		sc := c14cliScenarios[i]
+		dir := c14cliPrepare(base, sc, i)
+		blocks, diags, _ := c14cliExpected(dir, sc)
+		outFile := filepath.Join(base, fmt.Sprintf("out%d.json", i))
+		// serial reference for -m record text: the same tool with -c 1
+		serialOut := map[string]string{}
+		hasM := false
+		for _, b := range blocks {
+			if strings.HasPrefix(b, "\x00M") {
+				hasM = true
+			}
+		}
+		if hasM {
+			ser := sc
+			ser.Args = append([]string{}, sc.Args...)
+			for k := range ser.Args {
+				if ser.Args[k] == "-c" {
+					ser.Args[k+1] = "1"
+				}
+			}
+			rep, err := c14cliRun(bin, dir, ser, nil, outFile)
+			if err != nil {
+				c.Violation(map[string]string{"scenario": sc.Name}, "serial run failed: "+err.Error())
+				return
+			}
+			// split the serial stdout into blocks by prefix and record count
+			var so strings.Builder
+			for _, wr := range rep.Writes {
+				if wr.Stream == "stdout" {
+					so.WriteString(wr.Text)
+				}
+			}
+			lines := strings.SplitAfter(so.String(), "\n")
+			for _, b := range blocks {
+				if !strings.HasPrefix(b, "\x00M") {
+					continue
+				}
+				var n int
+				var pfx string
+				rest := strings.TrimPrefix(b, "\x00M")
+				k := strings.Index(rest, "\x00")
+				n, _ = strconv.Atoi(rest[:k])
+				pfx = rest[k+1:]
+				var got []string
+				for _, l := range lines {
+					if strings.HasPrefix(l, pfx) && len(got) < n && l != "" {
+						got = append(got, l)
+					}
+				}
+				serialOut[b] = strings.Join(got, "")
+			}
+		}
+		outcomes := map[string]int{}
+		maxPoints := 0
+		ex := &sched.Explorer{Stop: c.TimeUp}
+		if c.Quick() {
+			ex.MaxExec = 4000
+		} else {
+			ex.MaxExec = 40000
+		}
+		var unsupported []string
+		ex.Exec = func(prefix []int) ([]sched.Point, string) {
+			rep, err := c14cliRun(bin, dir, sc, prefix, outFile)
+			if err != nil {
+				return nil, "HARNESS: " + err.Error()
+			}
+			if len(rep.Points) > maxPoints {
+				maxPoints = len(rep.Points)
+			}
+			if len(rep.Unsupported) > 0 {
+				unsupported = rep.Unsupported
+			}
+			verdict, out := c14cliJudge(rep, blocks, diags, serialOut)
+			outcomes[out]++
+			return rep.Points, verdict
+		}
+		for b := 0; b <= bound && ex.Violation == "" && !ex.Capped; b++ {
+			ex.Bound = b
+			ex.Executions = 0
+			ex.Explore()
+			mu.Lock()
+			c.Add(fmt.Sprintf("cli_scenario_%d_schedules_bound_%d", i, b), int64(ex.Executions))
+			total += ex.Executions
+			mu.Unlock()
+			c.Transitions.Add(int64(ex.Executions))
+			c.Evaluations.Add(int64(ex.Executions))
+			c.Traces.Add(int64(ex.Executions))
+		}
+		if ex.Violation != "" {
+			// re-run the recorded schedule: it must fail again
+			rep, err := c14cliRun(bin, dir, sc, ex.Schedule, outFile)
+			again := "?"
+			if err == nil {
+				again, _ = c14cliJudge(rep, blocks, diags, serialOut)
+			}
+			if again == "" {
+				c.Violation(c14cliReplay{Kind: "cli", Scenario: sc, Schedule: ex.Schedule, Detail: "did not reproduce: " + ex.Violation}, "HARNESS: CLI violation did not reproduce from its schedule: "+ex.Violation)
+				return
+			}
+			c.Violation(c14cliReplay{Kind: "cli", Scenario: sc, Schedule: ex.Schedule, Detail: ex.Violation}, fmt.Sprintf("xsel %s under schedule %s: %s", strings.Join(sc.Args, " "), compactSchedule(ex.Schedule), ex.Violation))
+			return
+		}
+		if ex.Capped || len(unsupported) > 0 {
+			c.Exhaustive = false
+		}
+		if len(unsupported) > 0 {
+			c.Set("cli_unmodelled_operations", unsupported)
+		}
+		c.States.Add(int64(maxPoints))
+		c.Distinct("cli|" + sc.Name)
+		mu.Lock()
+		c.Set(fmt.Sprintf("cli_scenario_%d_distinct_output_orders", i), len(outcomes))
+		mu.Unlock()
+		c.Sample(map[string]interface{}{"cli_scenario": sc.Name, "args": sc.Args, "scheduling_points_per_execution": maxPoints, "distinct_stdout_orders": len(outcomes)})
+	})
+	c.Set("cli_executions", total)
+}
+
+// c14cliReplayRun re-executes a stored CLI schedule.
+func c14cliReplayRun(r c14cliReplay) string {
+	base, err := os.MkdirTemp("", "xv-c14cli-")
+	if err != nil {
+		return err.Error()
+	}
+	defer os.RemoveAll(base)
+	bin, _, err := c14cliBuild(base)
+	if err != nil {
+		return err.Error()
+	}
+	dir := c14cliPrepare(base, r.Scenario, 0)
+	blocks, diags, _ := c14cliExpected(dir, r.Scenario)
+	rep, err := c14cliRun(bin, dir, r.Scenario, r.Schedule, filepath.Join(base, "out.json"))
+	if err != nil {
+		return err.Error()
+	}
+	for _, w := range rep.Writes {
+		fmt.Printf("thread %d -> %s: %q\n", w.Thread, w.Stream, w.Text)
+	}
+	v, _ := c14cliJudge(rep, blocks, diags, map[string]string{})
+	return v
+}
